@@ -228,6 +228,7 @@ func (vc *VC) finish(top *Frame) {
 	}
 	pos := vc.eng.fset.Position(fn.Pos())
 	if vc.con != nil {
+		var earlier []string
 		for i, e := range vc.con.Ensures {
 			env := top.env(st, vc.entry, extra)
 			name := vc.oblName("ensures", ensName(e, i))
@@ -236,7 +237,13 @@ func (vc *VC) finish(top *Frame) {
 				vc.failObl(name, e, err)
 				continue
 			}
-			vc.addObl(&Obl{Name: name, Kind: "ensures", Labels: e.Labels, Pos: clausePos(e), PC: pc, Goal: t, Clause: e.Text, Tier: e.Tier})
+			goal := t
+			if e.Cumulative && len(earlier) > 0 {
+				// the proof may use the earlier postconditions (each of them is an obligation of its own)
+				goal = fmt.Sprintf("(=> %s %s)", and(earlier...), t)
+			}
+			earlier = append(earlier, t)
+			vc.addObl(&Obl{Name: name, Kind: "ensures", Labels: e.Labels, Pos: clausePos(e), PC: pc, Goal: goal, Clause: e.Text, Tier: e.Tier, Isolated: e.Cumulative})
 		}
 	}
 	// frame conditions
@@ -346,10 +353,8 @@ func (vc *VC) prelude() (string, error) {
 		seen[use] = true
 		text, err := vc.eng.specText(use, vc.mode)
 		if err != nil {
-			if use == "lambda" || use == "trig" && vc.mode == Bits {
-				return nil
-			}
-			return fmt.Errorf("spec library %q (%s): %v", use, vc.mode, err)
+			// a library that exists only for the other reading is simply not part of this VC
+			return nil
 		}
 		for _, inc := range specIncludes(text) {
 			if err := visit(inc); err != nil {
@@ -410,6 +415,9 @@ func (o *Obl) smtText(withModel bool) (string, error) {
 		b.WriteString("\n")
 	}
 	for _, l := range vc.lines[:o.Prefix] {
+		if o.Isolated && strings.HasPrefix(l, "(assert") {
+			continue // a lemma over the contract's own clauses: proved from the earlier clauses alone
+		}
 		b.WriteString(l)
 		b.WriteString("\n")
 	}
